@@ -561,7 +561,8 @@ CHECKS = {
                  "WithLoadSHA1), each with its own script text; 2-6 tasks of 1-4 Lua.Exec or Lua.ExecMulti(1-4 units) calls on the same and on different objects, every "
                  "unit carrying a unique id as ARGV[1] that the body pushes to a list (read-only bodies: reads the list) and returns; script-cache states: scripts preloaded "
                  "on some nodes or on none, 0-3 ghost SCRIPT FLUSH at seeded steps, node restarts that lose the cache; half of the plans fault-free, the others with 1-3 "
-                 "connection faults (reset, reset after execution, EOF, EOF mid-reply, write error, node restart with refused dials) and deadlines on a tenth of the calls; "
+                 "connection faults (reset, reset after execution, EOF, EOF mid-reply, write error, node restart with refused dials) and, in a third of them, a node that "
+                 "answers its next 1-3 commands with -LOADING; "
                  "DisableRetry in a fifth of the plans; part 1 a single-node client, part 2 a cluster client over 2-3 shards (+0-1 replica) where ExecMulti loads the script "
                  "on every node through Nodes(). oracle, from the model's command log (per id: every EVAL/EVALSHA(_RO) received, its reply, whether a body ran) and from a "
                  "pass-through Client handed to lua.go that records the commands each call issued and the results it got: (1) per id the body ran at most once -- judged in "
@@ -577,7 +578,8 @@ CHECKS = {
         ],
         "expected_probes": ["noscript-then-eval", "ghost-script-flush", "node-restart-lost-script-cache", "executed-but-unanswered",
                             "retryable-script-re-executed-after-fault", "exec-requested-sha-with-script-load", "first-exec-of-load-sha1-script-started-alone",
-                            "execmulti-loaded-script-on-several-nodes", "execmulti-spanned-nodes", "fault-free-plan"],
+                            "execmulti-loaded-script-on-several-nodes", "execmulti-spanned-nodes", "fault-free-plan",
+                            "evalsha-answered-with-another-error"],
         "components": {"real": REAL, "stubs": STUBS},
         "assumptions": [
             "fakeredis' script cache, NOSCRIPT replies and Exec.ScriptRuns are correct (cross-checked per id against the RPUSHes the bodies made; a mismatch is a harness error)",
